@@ -426,13 +426,24 @@ def bounded(tier, seed):
             odd = dict(scale=2.5, name='an alias', datatype='ratio', valid_min=np.float64(0.25), valid_range=np.array([0., 10.], 'd'), flag=np.int16(3))
             for k_, val_ in odd.items():
                 setattr(v, k_, val_)
+            # global attributes given as plain python integers, at and beyond the 32-bit range (NETCDF4 holds 64-bit integers)
+            gints = dict(small=7, top32=2 ** 31 - 1, bottom32=-2 ** 31)
+            if fl == 'NETCDF4':
+                gints.update(ncells=2 ** 31 + 5, stamp_ms=1700000000000, negbig=-2 ** 40)
+            for k_, val_ in gints.items():
+                setattr(f, k_, val_)
             path = os.path.join(tmp, 'odd_%s.nc' % fl)
 
-            def t(f=f, path=path, fl=fl, odd=odd):
+            def t(f=f, path=path, fl=fl, odd=odd, gints=gints):
                 import netCDF4
                 f.save(path, format=fl, verbose=0).close()
                 ds = netCDF4.Dataset(path)
                 try:
+                    for k_, val_ in gints.items():
+                        if k_ not in ds.ncattrs():
+                            return 'global attribute %r (python int %d) is missing from the saved file' % (k_, val_)
+                        if int(ds.getncattr(k_)) != val_:
+                            return 'global attribute %r: %d saved as %r' % (k_, val_, ds.getncattr(k_))
                     w = ds.variables['conc']
                     have = list(w.ncattrs())
                     for k_, val_ in odd.items():
